@@ -71,11 +71,14 @@ pub fn qs(sinphi: f64, e: f64) -> f64 {
         return 2.0 * sinphi;
     }
 
-    let con = e * sinphi;
+    // qs is an odd function: evaluate it for |sinphi|, so that qs(-s) == -qs(s) exactly
+    // (the polar aspects of laea depend on qs(-1) + qs(1) being zero)
+    let s = sinphi.abs();
+    let con = e * s;
     let div1 = 1.0 - con * con;
     let div2 = 1.0 + con;
 
-    one_es * (sinphi / div1 - (0.5 / e) * ((1. - con) / div2).ln())
+    (one_es * (s / div1 - (0.5 / e) * ((1. - con) / div2).ln())).copysign(sinphi)
 }
 
 /// Ancillary function for computing the inverse isometric latitude. Follows
